@@ -376,7 +376,7 @@ class Check:
             with open(path, "w") as f:
                 f.write("property: %s\nkey: %s\nwhat: %s\n\n%s\n" % (self.prop, key, desc, replay))
             tail = " no-failing-input-found" if key.startswith("tie-broken") else ""
-            print("VIOLATION property=%s replay=%s%s" % (self.prop, path, tail))
+            print("VIOLATION property=%s replay=%s%s" % (self.prop, path, tail), flush=True)
         ev = dict(property_id=self.prop, tier=self.tier, seed=self.seed, level=self.level,
                   coverage=self.coverage, assumptions=self.assumptions,
                   wall_s=round(time.time() - self.t0, 2), violations=len(seen))
